@@ -33,6 +33,10 @@ KINDS = ["dup-writer-same", "dup-writer-overlap-slice", "dup-writer-parent", "bl
          "overlapping-sinks-in-one-net",
          # the SECOND assignment to a signal in one block uses the wrong operator (the first one is right; plain or inside an if)
          "op-wrong-on-later-assignment",
+         # an augmented assignment other than @= / <<= on a signal ( += |= ^= ... ) in either kind of block
+         "op-other-augassign",
+         # a stepped slice of a signal in a connect statement ( s.x[0:8:2] )
+         "connect-stepped-slice",
          # a register bit selected by a SIGNAL on the left of <<= (the constant-index form is op-ilshift-slice-in-ff)
          "ff-variable-bit-index"]
 
@@ -297,6 +301,22 @@ def inject(rng, design, kind):
         elif shape == "in-else": bad = ["if", ["cmp", "eq", ["rd", st[1]], ["c", 0, None]], [["=", st[1], ["c", 1 & G.mask(st[1]["w"]), None]]], [bad]]
         b["stmts"] = b["stmts"][:j] + [["=", st[1], ["c", 0, None]], bad] + b["stmts"][j + 1:]
         return d, {UB} if b["kind"] == "comb" else {UF}, dict(info, block=b["name"], wrong=wrong, shape=shape, target=G.ref_text(st[1]))
+    if kind == "op-other-augassign":
+      blks = [b for b in cls["blocks"] if b["kind"] in ("comb", "ff") and b["stmts"] and not b.get("lambda") and not b.get("emit_stmts")]
+      cands = [(b, j) for b in blks for j, st in enumerate(b["stmts"]) if st[0] == "=" and not st[1].get("sym")]
+      if cands:
+        b, j = rng.choice(cands)
+        opx = rng.choice(["+=", "|=", "^=", "&=", "-=", ">>="])
+        b["stmts"] = b["stmts"][:j] + [b["stmts"][j][:3] + [opx]] + b["stmts"][j + 1:]
+        return d, {UB} if b["kind"] == "comb" else {UF}, dict(info, block=b["name"], op=opx)
+    if kind == "connect-stepped-slice":
+      cands = [(i, k_) for i, con in enumerate(cls["connects"]) for k_, r in enumerate(con)
+               if "const" not in r and r.get("steps") and r["steps"][-1][0] == "s" and len(r["steps"][-1]) == 3 and r["steps"][-1][2] - r["steps"][-1][1] >= 2]
+      if cands:
+        i, k_ = rng.choice(cands)
+        r = cls["connects"][i][k_]
+        r["steps"] = r["steps"][:-1] + [r["steps"][-1] + [rng.choice([1, 2, -1])]]
+        return d, {"AssertionError"}, dict(info, connect=G.emit_connect(cls["connects"][i][0], cls["connects"][i][1], 0))
     if kind == "op-imatmul-in-ff":
       blks = [b for b in cls["blocks"] if b["kind"] == "ff" and b["stmts"]]
       if blks:
